@@ -29,7 +29,10 @@ RULE = (
     "run_generic_phase does (ebd.write(e.ret), then the shutdown handshake reads the channel). Enumerated: every helper x "
     "request variant (valid, second valid shape, missing source / no argument, directory without -r, unknown option, "
     "recursive, two sources ...) x nonfatal {true,false} x insoptions/diroptions {absent, -m0644|-m0750, '-m u+x' "
-    "(external install fallback), --bogus}; then for every fault-free session every mutating filesystem event k of the "
+    "(external install fallback), --bogus}, plus image states found in place (the directory to create / to install into "
+    "already exists as a file, a symlink to a file, a directory) and obstructed installs (a directory at a file's "
+    "destination of a -r request, a file at a symlink's destination on the fallback path) whose follow-ups, after the "
+    "obstacle is removed, repeat the recursive / fallback request; then for every fault-free session every mutating filesystem event k of the "
     "request under test fails once with EIO (thorough: also EACCES, and all pairs k1<k2 with EIO). A class is "
     "(helper group, observed outcome, faulted?)."
 )
@@ -43,9 +46,10 @@ ASSUMPTIONS = [
     "filesystem placement details beyond 'the requested entry exists at the destination the request named' belong to C33",
 ]
 BOUNDS = {
-    "quick": "24 helpers (+6 of them again through the real pkgcore-ipc-helper + helper script): 484 fault-free sessions "
-    "(request under test, valid follow-up to the same helper where it keeps installer state, sentinel) + one EIO on every "
-    "helper filesystem event of the request under test of each of them (1982 fault points); ~4.9 k requests answered",
+    "quick": "24 helpers (+6 of them again through the real pkgcore-ipc-helper + helper script): 594 fault-free sessions "
+    "(request under test incl. image states found in place and obstructed recursive/symlink installs, valid follow-up(s) "
+    "to the same helper where it keeps installer state, sentinel) + one EIO on every helper filesystem event of the "
+    "request under test of each of them (2206 fault points); ~5.7 k requests answered",
     "thorough": "same sessions + EACCES on every event + every pair k1<k2 of EIO faults",
 }
 
@@ -108,11 +112,19 @@ def variants_of(helper):
             for om in OPTMODES:
                 out.append(("recursive", om))
         out += [("missing", "absent"), ("dir-no-r", "absent"), ("unknown-option", "absent"), ("missing", "mux")]
+        # image states found in place: the directory the file goes into already exists as a file / symlink to a file / dir
+        out += [("valid@file", "absent"), ("valid@link", "absent"), ("valid@dir", "absent")]
+        if helper in RECURSIVE:
+            out.append(("recursive-obstructed", "absent"))
+        if helper in RECURSIVE or helper == "doexe":
+            out.append(("symlink-obstructed", "mux"))
     elif helper in ("dodir", "keepdir"):
         for om in OPTMODES:
             out.append(("valid", om))
             out.append(("two", om))
         out += [("no-args", "absent"), ("unknown-option", "absent")]
+        # the requested path already exists in the image as a file / symlink to a file / directory
+        out += [("valid@file", "absent"), ("valid@link", "absent"), ("valid@dir", "absent"), ("valid@file", "octal")]
     elif helper == "dosym":
         out = [("valid", "absent"), ("relative", "absent"), ("overwrite", "absent"), ("trailing-slash", "absent"), ("no-args", "absent")]
     elif helper == "dohard":
@@ -143,7 +155,10 @@ def all_sessions():
     for helper in SCRIPT_HELPERS:
         oms = OPTMODES if helper not in ("dosym", "dodoc") else ("absent",)  # the dodoc script passes no insoptions
         for om in oms:
-            for variant in ("valid", "missing" if helper not in ("dodir", "keepdir", "dosym") else "no-args"):
+            variants = ["valid", "missing" if helper not in ("dodir", "keepdir", "dosym") else "no-args"]
+            if helper in ("dodir", "keepdir"):
+                variants += ["valid@file", "valid@link"]
+            for variant in variants:
                 if variant != "valid" and om != "absent":
                     continue
                 for nonfatal in (True, False):
@@ -165,12 +180,16 @@ def build_request(spec):
     """-> dict(cmd, opts, args, env, effect=(kind, ...), expect) describing the request and its reference effect.
     expect: 'ok' (must succeed fault-free), 'fail' (cannot succeed), 'any' (unspecified; one-directional oracle)"""
     h, v, om = spec["helper"], spec["variant"], spec["optmode"]
+    v, _, found = v.partition("@")  # "<variant>@<what is found in place in the image>"
     script = spec["mode"] == "script"
     env = {}
     opts = []
     args = []
     effect = ("none",)
     expect = "ok"
+    pre = []  # entries put into the image before the session: ("file"|"dir", rel) / ("link", rel, rel target)
+    cleanup = None  # shell command run between the request under test and the follow-ups
+    fols = None  # follow-up requests replacing the plain one
     if h in IW:
         src, dest, rel = IW[h]
         mode = None
@@ -212,7 +231,44 @@ def build_request(spec):
         elif v == "unknown-option":
             args = ["-Z", src]
             expect = "any"
+        elif v == "recursive-obstructed":
+            # a directory sits where a file of the tree has to go; afterwards the obstacle is removed and the same
+            # recursive request, then one forced through the external install fallback, must work
+            args = ["-r", "d"]
+            inner = "d/inner.html" if h == "dohtml" else "d/inner.txt"
+            files = [(RECURSIVE[h], inner, mode)]
+            pre = [("dir", RECURSIVE[h])]
+            expect = "any"
+            cleanup = f'rmdir "${{ED}}/{RECURSIVE[h]}"'
+            src2 = "y.html" if h == "dohtml" else "g.txt"
+            rel2 = os.path.join(os.path.dirname(rel), src2)
+            fols = [
+                {"cmd": h, "opts": f'--dest="{dest}"', "args": ["-r", "d"], "effect": ("files", [(RECURSIVE[h], inner, None)])},
+                {"cmd": h, "opts": f'--dest="{dest}" --insoptions="-m u+x"', "args": [src2], "effect": ("files", [(rel2, src2, None)])},
+            ]
+        elif v == "symlink-obstructed":
+            # a symlink source goes through install_symlinks (external fallback); its destination is occupied
+            lnk, target = ("lnk.html", "x.html") if h == "dohtml" else ("lnk.txt", "f.txt")
+            lrel = os.path.join(os.path.dirname(rel), lnk)
+            args = [lnk]
+            files = []
+            pre = [("file", lrel)]
+            expect = "any"
+            cleanup = f'rm -f "${{ED}}/{lrel}"'
+            fols = [{"cmd": h, "opts": " ".join(opts), "args": [lnk], "effect": ("symlink", lrel, target)}]
+            if h in RECURSIVE:
+                inner = "d/inner.html" if h == "dohtml" else "d/inner.txt"
+                fols.append({"cmd": h, "opts": f'--dest="{dest}"', "args": ["-r", "d"], "effect": ("files", [(RECURSIVE[h], inner, None)])})
         effect = ("files", files)
+        if v == "symlink-obstructed":
+            effect = ("symlink", lrel, target)
+        if found:
+            # the directory the file goes into is found as a regular file / a symlink to one / a directory
+            parent = os.path.dirname(rel)
+            pre = [{"file": ("file", parent), "link": ("link", parent, "pre/file"), "dir": ("dir", parent)}[found]]
+            if found != "dir":
+                expect = "fail"
+                cleanup = f'rm -f "${{ED}}/{parent}"'  # the plain follow-up goes to the same directory: clear the way
         if om == "bogus" and h not in IGNORES_INSOPTIONS and expect == "ok":
             expect = "fail"  # `install --bogus` cannot install anything
     elif h in ("dodir", "keepdir"):
@@ -237,6 +293,10 @@ def build_request(spec):
             args = ["-Z", "/var/d1"]
             expect = "any"
         effect = ("dirs", [(d, mode) for d in dirs], h == "keepdir")
+        if found:
+            pre = [{"file": ("file", "var/d1"), "link": ("link", "var/d1", "pre/file"), "dir": ("dir", "var/d1")}[found]]
+            if found != "dir":
+                expect = "fail"  # a directory cannot be created where a file is
         if om == "bogus" and expect == "ok":
             expect = "fail"
     elif h == "dosym":
@@ -291,15 +351,25 @@ def build_request(spec):
         args = ["-v", "FOO"] + {"valid": ["env.in", "env.out"], "missing": ["nonexistent.in", "env.out"], "one-file": ["env.in"]}[v]
         effect = ("filtered", "env.out", b"BAR=2", b"FOO")
         expect = "ok" if v == "valid" else "fail"
-    return {"cmd": h, "opts": " ".join(opts), "args": args, "env": env, "effect": effect, "expect": expect}
+    return {
+        "cmd": h, "opts": " ".join(opts), "args": args, "env": env, "effect": effect, "expect": expect,
+        "pre": pre, "cleanup": cleanup, "fols": fols,
+    }  # fmt: skip
+
+
+def build_followups(spec, req):
+    """valid requests to the *same* helper instance, issued after the request under test (ipc sessions of the helpers
+    that keep per-instance installer state): the variant's own list, else one plain request; [] for the others"""
+    if spec["mode"] != "ipc":
+        return []
+    if req["fols"] is not None:
+        return list(req["fols"])
+    f = build_followup(spec)
+    return [f] if f is not None else []
 
 
 def build_followup(spec):
-    """a plain valid request to the *same* helper instance, issued after the request under test (ipc sessions of the
-    helpers that keep per-instance installer state); None for the others"""
     h = spec["helper"]
-    if spec["mode"] != "ipc":
-        return None
     if h in IW:
         two = build_request(dict(spec, variant="two", optmode="absent"))
         rel2, src2, _ = two["effect"][1][1]
@@ -350,9 +420,11 @@ while (( i < ${#F[@]} )); do
 			else
 				one ${tag} "${ipc_helper}" "${PKGCORE_EBD_PATH}/helpers/0/src_install/${cmd}" "${args[@]}"
 			fi ;;
+		sh) ( eval "${cmd}" ) >/dev/null 2>&1; continue ;;
 		fn) one ${tag} "${cmd}" "${args[@]}" ;;
 		*) one ${tag} __ebd_ipc_cmd "${cmd}" "${opts}" "${args[@]}" ;;
 	esac || exit 0
+	:
 done
 __ebd_write_line "phases succeeded"
 exit 0
@@ -395,8 +467,9 @@ class Watchdog:
 
     TICK, IDLE = 5, 30
 
-    def __init__(self, pgid_fn, cap):
+    def __init__(self, pgid_fn, cap, waiting_fn=None):
         self.pgid_fn, self.cap = pgid_fn, cap
+        self.waiting_fn = waiting_fn
         self.elapsed = self.idle = 0
         self.last = None
         self.reason = None
@@ -416,6 +489,12 @@ class Watchdog:
         if self.elapsed >= self.cap:
             self.reason = f"no answer within {self.cap}s"
             raise _Timeout()
+        if self.waiting_fn is not None and not self.waiting_fn():
+            # we are not blocked on the peer (the helper itself is working, e.g. waiting for install/tar/patch):
+            # an idle peer means nothing then
+            self.idle = 0
+            self.last = None
+            return
         pgid = self.pgid_fn()
         if not pgid:
             return
@@ -468,6 +547,8 @@ class World:
     def _make_template(self):
         for n in ("f.txt", "g.txt", "lib.so", "lib.a", "x.info", "x.html", "y.html", "x.1", "y.1", "de.mo", "fr.mo"):
             self._w("src/" + n, FILE_DATA + n.encode())
+        os.symlink("f.txt", os.path.join(self.tmpl, "src/lnk.txt"))
+        os.symlink("x.html", os.path.join(self.tmpl, "src/lnk.html"))
         self._w("src/d/inner.txt", FILE_DATA + b"inner")
         self._w("src/d/inner.html", FILE_DATA + b"innerh")
         self._w("src/target.txt", b"line1\nline2\nline3\n")
@@ -496,6 +577,18 @@ class World:
         self.T = os.path.join(self.run_dir, "T")
         self.dist = os.path.join(self.run_dir, "dist")
         self.status = os.path.join(self.run_dir, "status")
+
+    def apply_pre(self, pre):
+        for op in pre:
+            p = os.path.join(self.image, op[1])
+            os.makedirs(os.path.dirname(p), exist_ok=True)
+            if op[0] == "file":
+                with open(p, "wb") as f:
+                    f.write(b"in the way\n")
+            elif op[0] == "dir":
+                os.makedirs(p)
+            else:
+                os.symlink(os.path.relpath(os.path.join(self.image, op[2]), os.path.dirname(p)), p)
 
     def make_helpers(self):
         from pkgcore.ebuild import ebd_ipc
@@ -535,6 +628,7 @@ def run_session(world, spec, timeout=None):
     world.fresh()
     op = world.make_helpers()
     req = build_request(spec)
+    world.apply_pre(req["pre"])
     obs = {"replies": [], "events_at_reply": [], "outcome": None, "ipc_error": None, "req": req}
 
     rq_r, rq_w = os.pipe()  # bash -> python
@@ -560,13 +654,17 @@ def run_session(world, spec, timeout=None):
     mode = spec["mode"]
     if mode == "ipc" and spec["helper"] in ("has_version", "best_version"):
         mode = "fn"
-    fol = build_followup(spec)
-    obs["fol"] = fol
+    fols = build_followups(spec, req)
     records = [("request", mode, req["cmd"], req["opts"], req["args"])]
-    if fol is not None:
-        records.append(("followup", "ipc", fol["cmd"], fol["opts"], fol["args"]))
+    if req["cleanup"]:
+        records.append(("cleanup", "sh", req["cleanup"], "", []))
+    obs["fols"] = {}
+    for i, fol in enumerate(fols):
+        tag = "followup" if i == 0 else f"followup{i + 1}"
+        obs["fols"][tag] = fol
+        records.append((tag, "ipc", fol["cmd"], fol["opts"], fol["args"]))
     records.append(("sentinel", "script" if mode == "script" else "ipc", "dodir", "", ["/sentinel"]))
-    obs["tags"] = [r[0] for r in records]
+    obs["tags"] = [r[0] for r in records if r[1] != "sh"]
     spec_path = os.path.join(world.run_dir, "session.spec")
     with open(spec_path, "wb") as f:
         for tag, m, cmd, opts, args in records:
@@ -581,7 +679,30 @@ def run_session(world, spec, timeout=None):
     ebp = processor.EbuildProcessor.__new__(processor.EbuildProcessor)
     ebp.pid = None
     ebp.ebd_write = os.fdopen(rp_w, "w")
-    ebp.ebd_read = os.fdopen(rq_r, "rb")
+    raw_read = os.fdopen(rq_r, "rb")
+    waiting = [False]
+
+    class ReadProxy:
+        """the request pipe; notes when the python side is blocked waiting for the bash side"""
+
+        def readline(self, *a):
+            waiting[0] = True
+            try:
+                return raw_read.readline(*a)
+            finally:
+                waiting[0] = False
+
+        def read(self, *a):
+            waiting[0] = True
+            try:
+                return raw_read.read(*a)
+            finally:
+                waiting[0] = False
+
+        def close(self):
+            raw_read.close()
+
+    ebp.ebd_read = ReadProxy()
     ebp._outstanding_expects = []
     ebp.processing_lock = False
     real_write = ebp.write
@@ -634,7 +755,7 @@ def run_session(world, spec, timeout=None):
     if spec.get("fault"):
         ks, en = spec["fault"]
         plan = ("errors", set(ks), en) if len(ks) > 1 else ("error", ks[0], en)
-    dog = Watchdog(lambda: proc.pid, timeout or TIMEOUT)
+    dog = Watchdog(lambda: proc.pid, timeout or TIMEOUT, waiting_fn=lambda: waiting[0])
     try:
         with dog:
             status, value = inj.run(serve, plan)
@@ -664,7 +785,7 @@ def run_session(world, spec, timeout=None):
     obs["stderr"] = _read(world.status + ".request.err").decode("utf-8", "replace")
     obs["warns"] = [c for c in op.observer.calls if c[0] == "warn"]
     obs["effect"] = effect_present(world, op, req)
-    obs["fol_effect"] = effect_present(world, op, fol) if fol is not None else None
+    obs["fol_effects"] = {tag: effect_present(world, op, fol) for tag, fol in obs["fols"].items()}
     return obs
 
 
@@ -830,7 +951,8 @@ def judge(spec, obs):
     if not request_ended_phase:
         for tag in tags[1:]:
             tst = st.get(tag)
-            what = "sentinel 'dodir /sentinel'" if tag == "sentinel" else f"valid follow-up request {obs['fol']['cmd']} {obs['fol']['args']}"
+            fol = obs["fols"].get(tag)
+            what = "sentinel 'dodir /sentinel'" if tag == "sentinel" else f"valid follow-up request {fol['cmd']} {fol['opts']} {fol['args']}"
             if failing_tag == tag:
                 cause = str(obs.get("internal_cause", ""))
                 k = f"{tag}-dead-coroutine" if outcome == "internal-error" and cause.startswith("StopIteration") else f"{tag}-failed"
@@ -841,8 +963,8 @@ def judge(spec, obs):
                 break
             if tag == "sentinel" and not os.path.isdir(os.path.join(obs["world_image"], "sentinel")):
                 v.append(("sentinel-failed", "sentinel status 0 but /sentinel was not created"))
-            if tag == "followup" and obs["fol_effect"] is not True:
-                v.append(("followup-failed", f"{what} returned 0 but its effect is absent"))
+            if tag != "sentinel" and obs["fol_effects"][tag] is not True:
+                v.append((f"{tag}-failed", f"{what} returned 0 but its effect is absent"))
 
     cls = outcome
     if request_ended_phase is False and outcome != "finished":
@@ -894,7 +1016,7 @@ def work(task):
             evals += 1
             counters["fault_free_sessions"] += 1
             counters["requests"] += len(obs["replies"])
-            k = f"{GROUP[helper]}:{cls}"
+            k = f"{GROUP[helper]}:{'in-place:' if '@' in spec['variant'] or 'obstructed' in spec['variant'] else ''}{cls}"
             classes[k] = classes.get(k, 0) + 1
             if vs:
                 viol.append(mk_case(spec, vs))
@@ -937,7 +1059,7 @@ def replay(case):
 # ------------------------------------------------------------------ known-defect classifier (narrow)
 
 FALLBACK_CAPABLE = (set(IW) - IGNORES_INSOPTIONS) | {"dodir", "keepdir"}
-DEAD = {"followup-dead-coroutine", "sentinel-dead-coroutine"}
+DEAD = {"followup-dead-coroutine", "followup2-dead-coroutine", "sentinel-dead-coroutine"}
 
 
 def _c_install_status_inverted(case):
